@@ -157,3 +157,19 @@ Theorem C08_emitted_decode_is_model : forall p fuel t s,
   den_dec emitted_plain (dfl_of schema_plain) p fuel (presc_rop t) s = gen_decode schema_plain p fuel t s.
 Proof. exact emitted_decode_is_model. Qed.
 Print Assumptions C08_emitted_decode_is_model.
+
+(* finding F-08b (class container-element-retyped): evo_dom also excludes a container whose header announces another
+   element wire type than the declared one (writer re-typed list<i32> to list<string>; the FIELD's wire type is still
+   List).  There the statement is false for the emitted code: the elements are read at the declared type -- a wrong
+   value (here [2, 1633812480] from ["ab", "c"]) with the rest of the message left unread.  Replayed on the emitted
+   code: `dec plain dflt.Inner binary sync 080001000000070f00040b00000002000000026162000000016300`. *)
+Theorem C08_elem_retyped_refuted :
+  exists R p k T tv ss,
+    wf_schema R = true /\ wt tv = true /\ ttype_of tv = ttype_of_ty R T /\
+    walk R skippable true T (VStruct [(1, VI32 7)]) = true /\                   (* the rest of the message is in the domain; no union occurs *)
+    evo_dom R T tv = false /\
+    write_val p k tv w0 = Ok (ss, w0) /\
+    gen_decode R p 40 T (mkS (flat ss) r0)
+      = Ok (GStruct [(1, GI32 7); (4, GList [GI32 2; GI32 1633812480])] [], mkS [x01; x63; x00] r0).
+Proof. exact elem_retyped_refuted. Qed.
+Print Assumptions C08_elem_retyped_refuted.
